@@ -326,6 +326,10 @@ class CodeGenerator(NodeVisitor):
         # into the global python scope they are registered here
         self.blocks: dict[str, nodes.Block] = {}
 
+        # the eval context at the place where each block is written, for
+        # example inside an autoescape block
+        self.block_eval_ctx: dict[str, dict[str, t.Any]] = {}
+
         # the number of extends statements so far
         self.extends_so_far = 0
 
@@ -928,6 +932,9 @@ class CodeGenerator(NodeVisitor):
             # interesting issues with identifier tracking.
             block_frame = Frame(eval_ctx)
             block_frame.block_frame = True
+            saved_eval_ctx = eval_ctx.save()
+            if name in self.block_eval_ctx:
+                eval_ctx.revert(self.block_eval_ctx[name])
             undeclared = find_undeclared(block.body, ("self", "super"))
             if "self" in undeclared:
                 ref = block_frame.symbols.declare_parameter("self")
@@ -943,6 +950,7 @@ class CodeGenerator(NodeVisitor):
             self.blockvisit(block.body, block_frame)
             self.leave_frame(block_frame, with_python_scope=True)
             self.outdent()
+            eval_ctx.revert(saved_eval_ctx)
 
         blocks_kv_str = ", ".join(f"{x!r}: block_{x}" for x in self.blocks)
         self.writeline(f"blocks = {{{blocks_kv_str}}}", extra=1)
@@ -951,6 +959,7 @@ class CodeGenerator(NodeVisitor):
 
     def visit_Block(self, node: nodes.Block, frame: Frame) -> None:
         """Call a block and register it for the template."""
+        self.block_eval_ctx[node.name] = frame.eval_ctx.save()
         level = 0
         if frame.toplevel:
             # if we know that we are a child template, there is no need to
